@@ -456,6 +456,7 @@ pub fn run(args: Args) {
          virtual time <= 60 s. non-trivial = graph with at least one link; distinct = distinct (graph, mode, round).",
     );
     run.assume("T5: upstream servers send the records of one reply in chain order; each alias name lives in exactly one source");
+    run.assume("the forwarder resolves only what it is asked with RD=1; asked without RD it answers REFUSED");
     run.assume("in forwarding mode a chain is 'obtainable' only if, from the first upstream link on, all links are upstream (the forwarder cannot see local data)");
     let hub = TraceHub::new(&args, THREADS);
     hub.start_hang_monitor(Duration::from_secs(30));
